@@ -71,6 +71,7 @@ def main(tier: str, seed: int, opts) -> int:
         digest = hashlib.sha256()
         seen = set()
         harness_timeouts = 0
+        discards = 0
         samples = []
         for (label, idx), job, rr in zip(labels, jobs, raw_results):
             if not rr.get("ok") and rr.get("kind") == "timeout" and label.startswith(("file", "master")):
@@ -78,6 +79,9 @@ def main(tier: str, seed: int, opts) -> int:
                 continue
             r = unwrap(rr, f"C08 session {label} {idx}")
             digest.update((r.get("log_digest") or "-").encode())
+            if r["verdict"] == "discard":
+                discards += 1
+                continue
             merge_counts(stats, r["stats"])
             ops_total += r["n_ops"]
             src_ = label.split(":")[0]
@@ -125,6 +129,7 @@ def main(tier: str, seed: int, opts) -> int:
                               "reparse_attempt_under_warnings_as_errors": stats.get("strict_reparse_attempts", 0)},
         "operation_outcome_kinds_reached": sorted(opkinds),
         "file_sessions_over_time_budget": harness_timeouts,
+        "sessions_discarded_constructor_refused_delivery": discards,
         "regression_replays_run": n_reg,
         "anchored_code_reach": reach_report(PROP, cover_hits),
         "log_digest": digest.hexdigest(),
